@@ -97,7 +97,8 @@ func main() {
 	run := evid.New("C17", tier, "exploration")
 	run.Rule = "a case = (entry point, machine size, caller pattern, batch size n); the monitor records goroutines and heap objects before/after each batch; non-trivial = a batch in which every call returned a result; distinct by the 4-tuple"
 	run.Assume = []string{"a goroutine that is still runnable right after the call but exits on its own is waited for (5 GC/yield rounds); only goroutines alive after that count",
-		"violation threshold: after-before for n=256 exceeds after-before for n=1 by more than 4 goroutines (a leak of one goroutine per call gives 255)"}
+		"violation threshold: after-before for n=256 exceeds after-before for n=1 by more than 4 goroutines (a leak of one goroutine per call gives 255)",
+		"heap: more than 2 retained objects per call between the two largest batches (and more than 400 objects), confirmed by a second measurement"}
 	run.Floor = 8
 	scratch, clean := hx.Scratch("c17")
 	defer clean()
@@ -106,6 +107,22 @@ func main() {
 	entries := []entry{
 		{"SinglePipelineSimulate", func(bm *bondmachine.Bondmachine) error {
 			out, err := bm.SinglePipelineSimulate("unsigned", []string{"5"}, nil)
+			if err != nil {
+				return err
+			}
+			if len(out) != 1 || out[0] != fmt.Sprint(5+len(bm.Processors)) {
+				return fmt.Errorf("unexpected result %v", out)
+			}
+			return nil
+		}},
+		{"SinglePipelineSimulate-with-delay-map", func(bm *bondmachine.Bondmachine) error {
+			// the tuning path (cmd/simfinetune): every call gets a per-opcode delay map; one-point
+			// distributions keep the result a function of the machine
+			d := simbox.NewSimDelays()
+			d.OpcodeDelays["inc"] = simbox.DelayDistribution{2: 1}
+			d.OpcodeDelays["i2rw"] = simbox.DelayDistribution{1: 1}
+			d.OpcodeDelays["r2owa"] = simbox.DelayDistribution{3: 0.5, 4: 0.5}
+			out, err := bm.SinglePipelineSimulate("unsigned", []string{"5"}, d)
 			if err != nil {
 				return err
 			}
@@ -148,6 +165,7 @@ func main() {
 		sizes = []int{1, 2, 3, 4, 5, 6}
 		batches = []int{1, 8, 64, 256, 1024}
 	}
+	maxPerCall := 0.0
 	for _, e := range entries {
 		for ki, k := range append(append([]int{}, sizes...), sizes...) {
 			cmd := ki >= len(sizes)
@@ -226,11 +244,37 @@ func main() {
 					w["leaking_creation_sites"] = sites
 					run.Violation("goroutine-growth:"+e.name, w)
 				}
-				// heap: allowance 64 objects per call beyond the n=1 batch
-				perCall := float64(last.HeapDelta-first.HeapDelta) / float64(last.N-first.N)
+				// heap: live objects retained per finished call, from the two largest batches (the small
+				// batches only carry one-off initialisation). A slope above 2 objects per call that also
+				// amounts to more than 400 objects is measured a second time with a fresh batch of the
+				// largest size; only growth seen in both measurements is a violation (the collector's
+				// own bookkeeping makes single deltas of a few hundred objects meaningless).
+				prev := series[len(series)-2]
+				perCall := float64(last.HeapDelta-prev.HeapDelta) / float64(last.N-prev.N)
 				w["heap_objects_per_call"] = perCall
-				if perCall > 64 {
-					run.Violation("heap-growth:"+e.name, w)
+				if perCall > maxPerCall {
+					maxPerCall = perCall
+				}
+				if perCall > 2 && last.HeapDelta-prev.HeapDelta > 400 {
+					_, h0 := settle()
+					var wg sync.WaitGroup
+					per := last.N / conc
+					for wk := 0; wk < conc; wk++ {
+						wg.Add(1)
+						go func() {
+							defer wg.Done()
+							for c := 0; c < per; c++ {
+								safeCall(e.call, bm)
+							}
+						}()
+					}
+					wg.Wait()
+					_, h1 := settle()
+					again := int64(h1) - int64(h0)
+					w["heap_objects_second_measurement"] = again
+					if float64(again)/float64(last.N) > 2 && again > 400 {
+						run.Violation("heap-growth:"+e.name, w)
+					}
 				}
 				if k == sizes[0] && conc == 1 {
 					run.Sample(w)
@@ -238,6 +282,7 @@ func main() {
 			}
 		}
 	}
+	run.Extra["max_heap_objects_per_call_observed"] = maxPerCall
 	os.Exit(run.Finish())
 }
 
